@@ -6,6 +6,11 @@ import (
 	"net/url"
 	"reflect"
 	"strconv"
+	"strings"
+	"time"
+
+	"google.golang.org/protobuf/encoding/protojson"
+	"google.golang.org/protobuf/types/known/timestamppb"
 )
 
 // ---- JSON builders (natively: JSON text; symbolically: abstract documents) ----
@@ -195,3 +200,33 @@ func JEqual(a, b []byte) bool {
 
 // JRaw is literal JSON text.
 func JRaw(text string) []byte { return []byte(text) }
+
+// TimeRFC3339 is the proto3 JSON text of the Timestamp (seconds, nanos).
+func TimeRFC3339(sec int64, nanos int32) string {
+	b, err := protojson.Marshal(&timestamppb.Timestamp{Seconds: sec, Nanos: nanos})
+	if err != nil {
+		return "!invalid-timestamp"
+	}
+	return strings.Trim(string(b), `"`)
+}
+
+// TimeDate is the UTC calendar date (YYYY-MM-DD) of the instant.
+func TimeDate(sec int64) string { return time.Unix(sec, 0).UTC().Format("2006-01-02") }
+
+// FloorDiv is floor(a / b) for b > 0.
+func FloorDiv(a, b int64) int64 {
+	q := a / b
+	if a%b != 0 && (a < 0) != (b < 0) {
+		q--
+	}
+	return q
+}
+
+// IntRange is an arbitrary integer in [lo, hi].
+func IntRange(name string, lo, hi int64) int64 { return rawInt(name) }
+
+// IntRange32 is an arbitrary integer in [lo, hi].
+func IntRange32(name string, lo, hi int32) int32 { return int32(rawInt(name)) }
+
+// MulC is a*c (the caller states that the product does not overflow).
+func MulC(a, c int64) int64 { return a * c }
